@@ -134,6 +134,11 @@ func (*V1) ReadIndex(path string) ([]byte, error) {
 	var idFile *os.File
 	var err error
 	if idFile, err = os.OpenFile(path, os.O_RDONLY, 0); err != nil {
+		if os.IsNotExist(err) {
+			// The index is written without fsync: it can be missing after a crash.
+			// Report it as corrupted so that it gets rebuilt from the txn file
+			return nil, errors.Wrapf(ErrDataCorrupted, "missing segment index file %s", path)
+		}
 		return nil, errors.Wrapf(err, "failed to open segment index file %s", path)
 	}
 	var indexBuf []byte
@@ -144,6 +149,10 @@ func (*V1) ReadIndex(path string) ([]byte, error) {
 	}
 	if err = idFile.Close(); err != nil {
 		return nil, errors.Wrapf(err, "failed to close segment index file %s", path)
+	}
+	if len(indexBuf) == 0 || len(indexBuf)%4 != 0 {
+		// A closed segment has at least one entry, and entries are 4 bytes each
+		return nil, errors.Wrapf(ErrDataCorrupted, "truncated segment index file %s", path)
 	}
 	return indexBuf, nil
 }
